@@ -199,7 +199,22 @@ theorem C02_deriv_basis_rounding_envelope (hε : 0 ≤ ε) (hfl : ∀ a, RelErr 
   exact ⟨by rw [l1, hlen], hlen, by rw [l2, hlen], fun i m e r hm he hr => hrow.get i m e r hm he hr⟩
 
 /-- **Forward error bound for evaluation with a derivative bitmask** (model at rounded arithmetic vs the same model
-exact; any bitmask — single and mixed first derivatives, `mask = 0` is C01).  Restricted by `AllInterior`. -/
+exact; any bitmask — single and mixed first derivatives, `mask = 0` is C01).
+
+Partial: the one restricting hypothesis is `hint : AllInterior T.dims xs cs` — every coordinate lies in the knot interval
+`[knots[c], knots[c+1]]` of its centre, that interval is not empty, the centre is fully supported (`order ≤ c`,
+`c + order + 2 ≤ nknots`) and the knots the recurrences touch are non-decreasing.  The full statement replaces it by the
+hypotheses of the exact theorem (`T.WF`, `AllNonDegenerate`, `searchCenters … = .ok cs`), i.e. it also covers the two
+partially supported margins and points of the supported range that sit exactly on `knots[naxes]`:
+```
+theorem C02_rounding_envelope_all … (hwf : T.WF) (hlen : T.dims.length = xs.length) (hnd : AllNonDegenerate T.dims xs)
+    (hs : searchCenters (T.dims.map Dim.axis) xs = .ok cs) (hn : ∀ d ∈ T.dims, d.order ≤ n) :
+    |ndsplineeval@rounded T xs cs mask − specEval T xs (maskModes T.dims.length mask)| ≤
+      gfac ε (3 + T.dims.length * (7 * n + 3) + 2 * blockSize T.dims) * ndsplineevalAbs ⟨T.dims, |coef|⟩ xs cs mask
+```
+Missing for it: the margin version of `derivCombine_row3` (in the margins `bsplvb` also fills slots of absent basis
+functions from the padding; they carry no bound and are discarded by `rearrange` — as done for values in
+`Proofs/RoundingMargin.lean`). -/
 theorem C02_rounding_envelope_partial (hε : 0 ≤ ε) (hfl : ∀ a, RelErr ε 1 a (fl a)) (hst : ∀ a, RelErr ε 1 a (st a))
     (T : Table F) (xs : List F) (cs : List Nat) (n mask : Nat)
     (hint : AllInterior T.dims xs cs) (hn : ∀ d ∈ T.dims, d.order ≤ n) :
